@@ -300,7 +300,7 @@ func (t *TrunBox) EncodeSW(sw bits.SliceWriter) error {
 	sw.WriteUint32(t.SampleCount())
 	if t.HasDataOffset() {
 		if t.DataOffset == 0 {
-			panic("trun data offset not set")
+			return fmt.Errorf("trun data offset not set")
 		}
 		sw.WriteInt32(t.DataOffset)
 	}
